@@ -418,6 +418,7 @@ def replay(spec, path, out=sys.stdout):
     except runner.BuildError as e:
         print('ERROR: build failed: ' + str(e), file=out)
         return 2
+    kf = knownmod.load()
     if isinstance(j, list):
         # a corpus file (list of regression cases): run each case's predicates and the correspondence
         bad = False
@@ -429,6 +430,10 @@ def replay(spec, path, out=sys.stdout):
                 vals = outs[pf][0][0]
                 for pr in c.preds:
                     msg = eval_pred(pr, vals)
+                    kid = knownmod.match(kf, pid, c, pr, vals, msg) if msg else None
+                    if kid:
+                        print('KNOWN-FINDING: property=%s %s (%s)' % (pid, kid['id'], kid['what']), file=out)
+                        continue
                     print('[%s] case %d %s -> %s' % (pf, k, pr[0], msg or 'holds'), file=out)
                     bad = bad or bool(msg)
             res, errs, _ = coqrun.evaluate(pid + '_replay', [(0, c.prog, outs['debug'][0][0], outs['debug'][0][1])])
@@ -448,6 +453,10 @@ def replay(spec, path, out=sys.stdout):
         for pf in ('debug', 'release'):
             vals = outs[pf][0][0]
             msg = eval_pred(c.preds[0], vals)
+            kid = knownmod.match(kf, pid, c, c.preds[0], vals, msg) if msg else None
+            if kid:
+                print('KNOWN-FINDING: property=%s %s (%s)' % (pid, kid['id'], kid['what']), file=out)
+                continue
             print('[%s] %s -> %s' % (pf, c.preds[0][0], msg or 'holds'), file=out)
             bad = bad or bool(msg)
         for l in prog.pretty():
